@@ -1682,7 +1682,13 @@ func (g *fgen) ioMembers(prefix string, n int, interp bool, startLoc int) (items
 		attr := fmt.Sprintf("@location(%d) ", loc)
 		loc += 1 + g.intn(2, "locgap")
 		if interp {
-			attr += g.interp(ty, true)
+			if ia := g.interp(ty, true); ia != "" && g.chance(50, "attrorder") {
+				// attributes may come in any order
+				g.class("io:interpolate-before-location")
+				attr = ia + attr
+			} else {
+				attr += ia
+			}
 		}
 		items = append(items, attr+nm+": "+ty)
 		names = append(names, nm)
